@@ -94,6 +94,10 @@ class FilterExpression(Expression):
 
         if isinstance(expression, PrefixExpression):
             operand = self._canonical_string(expression.right, PRECEDENCE_PREFIX)
+            if isinstance(expression.right, (ComparisonExpression, PrefixExpression)):
+                # `!` binds more tightly than comparison operators, and can only
+                # be followed by another `!` inside parentheses.
+                operand = f"({operand})"
             expr = f"!{operand}"
             return f"({expr})" if parent_precedence > PRECEDENCE_PREFIX else expr
 
@@ -173,6 +177,8 @@ class PrefixExpression(Expression):
         super().__init__(token)
 
     def __str__(self) -> str:
+        if isinstance(self.right, (ComparisonExpression, PrefixExpression)):
+            return f"{self.operator}({self.right})"
         return f"{self.operator}{self.right}"
 
     def __eq__(self, other: object) -> bool:
